@@ -177,4 +177,38 @@ FalsePositiveDomain(d, rootF, tldF) ==
      \/ (Len(low) >= 5 /\ SubSeq(low, 1, 5) = THISDOT)
      \/ (Len(labels) = 3 /\ labels[2] = PROTOTYPE /\ Len(root) < 3 /\ Len(tld) < 3)
      \* (a seventh rule in the code - names starting with "lib" under ".so" - compares bytes with a str and can never fire: as coded, absent)
+
+---------------------------------------------------------------------------
+(* network.find_ips: the documented contexts in which a dotted quad is a section or version number, not an address.
+   pre = the text before the quad.  Python's bytes classes: \s = blank \t \n \v \f \r, \w = letters, digits, underscore. *)
+IsSpaceB(b) == b = 32 \/ (b >= 9 /\ b <= 13)
+IsWordB(b) == IsAlnumB(b) \/ b = 95
+TrimRightSpace(s) == LET keep == {i \in 1..Len(s) : ~IsSpaceB(s[i])} IN
+                     IF keep = {} THEN <<>> ELSE SubSeq(s, 1, CHOOSE i \in keep : \A j \in keep : i >= j)
+EndsWithS(s, suf) == Len(s) >= Len(suf) /\ SubSeq(s, Len(s) - Len(suf) + 1, Len(s)) = suf
+\* "<t>" or "<ns:t>" (word characters before the colon), then white space
+XmlTextRun(pre) ==
+  LET p == TrimRightSpace(pre)  n == Len(p) IN
+  /\ n >= 3 /\ p[n] = 62 /\ p[n-1] = 116                                   \* ... t>
+  /\ \/ p[n-2] = 60                                                          \* <t>
+     \/ /\ p[n-2] = 58                                                       \* :t>
+        /\ \E k \in 1..(n - 3) : /\ p[k] = 60
+                                 /\ k + 1 <= n - 3
+                                 /\ \A i \in (k + 1)..(n - 3) : IsWordB(p[i])  \* <word:t>
+\* "section" or "sec." (any letter case), then at least one white-space character
+SectionNumber(pre) ==
+  LET p == TrimRightSpace(pre)  low == Tup(Lower(p)) IN
+  /\ Len(p) < Len(pre)
+  /\ (EndsWithS(low, <<115, 101, 99, 116, 105, 111, 110>>) \/ EndsWithS(low, <<115, 101, 99, 46>>))
+\* "ersion" starting within the ten bytes before the quad, with nothing but NUL = white space " between it and the quad
+VersionNumber(pre) ==
+  LET n == Len(pre)
+      ERSION == <<101, 114, 115, 105, 111, 110>>
+      cands == {k \in (IF n > 10 THEN n - 10 ELSE 0)..(n - 6) : k >= 0 /\ SubSeq(pre, k + 1, k + 6) = ERSION}       \* 0-based starts
+  IN /\ cands # {}
+     /\ LET k == CHOOSE x \in cands : \A y \in cands : x >= y            \* bytes.rfind
+        IN k + 6 < n /\ \A i \in (k + 7)..n : pre[i] \in {0, 61, 34} \/ IsSpaceB(pre[i])
+IpContextSuppressed(pre) == XmlTextRun(pre) \/ SectionNumber(pre) \/ VersionNumber(pre)
+\* the address expression's left boundary: not directly behind a word character, a dot or a hyphen
+IpLeftBoundary(pre) == pre = <<>> \/ ~(IsWordB(pre[Len(pre)]) \/ pre[Len(pre)] = DOT \/ pre[Len(pre)] = 45)
 =============================================================================
